@@ -294,11 +294,12 @@ class Program:
         key = c["key"]
         self.terms[key] = t
         self.term_key[tid] = key
+        mt0 = "reflect.TypeOf((func(%s) %s)(nil))" % (typexpr(t), c["mt0"][0]) if c.get("mt0") else "nil"
         if kind_of(t) == "interface":
-            common = ["desc(%s, reflect.TypeOf((*%s)(nil)).Elem())" % (json.dumps(tid), typexpr(t))]
+            common = ["desc(%s, reflect.TypeOf((*%s)(nil)).Elem(), %s)" % (json.dumps(tid), typexpr(t), mt0)]
         else:
             # through a value: *T is mentioned nowhere unless another term is *T, so PointerTo(T) has to find or build it
-            common = ["desc(%s, reflect.TypeOf(%sv0()))" % (json.dumps(tid), tid)]
+            common = ["desc(%s, reflect.TypeOf(%sv0()), %s)" % (json.dumps(tid), tid, mt0)]
         for q in c["q"]:
             self.exp(tid + "." + q["n"], q["r"], key, q["n"])
         per_variant = {v: [] for v in VARIANTS}
